@@ -16,6 +16,7 @@ package marbl
 
 import (
 	"bufio"
+	"bytes"
 	"encoding/binary"
 	"fmt"
 	"io"
@@ -101,8 +102,9 @@ func (r *Reader) ReadFrame() (Frame, error) {
 		nl := binary.BigEndian.Uint32(lens[:4])
 		vl := binary.BigEndian.Uint32(lens[4:])
 
-		nv := make([]byte, int(nl+vl))
-		if _, err := io.ReadFull(r.r, nv); err != nil {
+		// The sum of two 32-bit lengths needs more than 32 bits.
+		nv, err := readN(r.r, uint64(nl)+uint64(vl))
+		if err != nil {
 			return nil, err
 		}
 
@@ -130,9 +132,8 @@ func (r *Reader) ReadFrame() (Frame, error) {
 
 		dl := binary.BigEndian.Uint32(desc[5:])
 
-
-		data := make([]byte, int(dl))
-		if _, err := io.ReadFull(r.r, data); err != nil {
+		data, err := readN(r.r, uint64(dl))
+		if err != nil {
 			return nil, err
 		}
 
@@ -142,4 +143,32 @@ func (r *Reader) ReadFrame() (Frame, error) {
 	default:
 		return nil, fmt.Errorf("marbl: unknown type of frame")
 	}
+}
+
+// maxPrealloc bounds the memory set aside for a payload before any of it has
+// been read.
+const maxPrealloc = 1 << 20
+
+// readN reads exactly n bytes from r. n comes off the wire, so the buffer is
+// not sized from it: it grows with the bytes that actually arrive. A length
+// larger than what follows yields io.ErrUnexpectedEOF (io.EOF if nothing
+// follows), like io.ReadFull, instead of a multi-gigabyte allocation.
+func readN(r io.Reader, n uint64) ([]byte, error) {
+	if n <= maxPrealloc {
+		b := make([]byte, n)
+		_, err := io.ReadFull(r, b)
+		return b, err
+	}
+
+	var buf bytes.Buffer
+	buf.Grow(maxPrealloc)
+	m, err := io.CopyN(&buf, r, int64(n))
+	if err == io.EOF && m > 0 {
+		err = io.ErrUnexpectedEOF
+	}
+	if err != nil {
+		return nil, err
+	}
+
+	return buf.Bytes(), nil
 }
